@@ -142,4 +142,28 @@ def check(ctx: Ctx) -> str:
     from . import c15
 
     ctx.run_imported("C15", {"R6"}, c15.check)
+    ctx.rule("R5", "Macro._invoke and Macro._async_invoke return the same thing: the macro's value wrapped in Markup under autoescape, the value itself otherwise (no text conversion on one side only)")
+    ctx.use("runtime")
+    wraps: dict[str, set[str]] = {}
+    for fname in ("_invoke", "_async_invoke"):
+        fi_ = repo.func(f"runtime:Macro.{fname}")
+        w_: set[str] = set()
+        rvs = {t_.id for a in ast.walk(fi_.node) if isinstance(a, ast.Assign) and "self._func(" in ast.unparse(a.value) for t_ in a.targets if isinstance(t_, ast.Name)}
+        for a in list(ast.walk(fi_.node)):
+            e_ = a.value if isinstance(a, (ast.Return, ast.Assign)) else None
+            if e_ is None:
+                continue
+            for sub in (e_.body, e_.orelse) if isinstance(e_, ast.IfExp) else (e_,):
+                if isinstance(a, ast.Assign) and not (isinstance(a.targets[0], ast.Name) and a.targets[0].id in rvs and any(isinstance(x, ast.Name) and x.id in rvs for x in ast.walk(sub))):
+                    continue
+                if isinstance(sub, ast.Call) and sub.args and any(isinstance(x, ast.Name) and x.id in rvs for x in ast.walk(sub.args[0])):
+                    w_.add(astq.callee(sub))
+                elif isinstance(sub, ast.Name) and sub.id in rvs and isinstance(a, ast.Return):
+                    w_.add("<value>")
+        wraps[fname] = w_
+    ok = wraps["_invoke"] == wraps["_async_invoke"] == {"Markup", "<value>"}
+    ctx.check(ok, "macro:invoke-twins", "runtime:Macro._async_invoke", f"sync returns {sorted(wraps['_invoke'])}, async returns {sorted(wraps['_async_invoke'])}",
+              f"Macro._invoke returns {sorted(wraps['_invoke'])} and Macro._async_invoke {sorted(wraps['_async_invoke'])} (both must be Markup(value) under autoescape and the value itself otherwise): a text conversion on one side makes a native environment return the str() of a macro's value (a date, a list element) in that mode only",
+              repo.func("runtime:Macro._async_invoke").loc())
+
     return __doc__ or ""
